@@ -47,13 +47,19 @@ def main():
     mod = importlib.import_module('corr.' + prop.lower())
     ctx = Ctx(prop, tier)
     obligations, discharged, axioms = 0, 0, {}
+    stages = {}
+    tlast = [time.time()]
+    def stage(name):
+        now = time.time(); stages[name] = round(now - tlast[0], 2); tlast[0] = now
     try:
         # S0 build
         ctx.build = vlib.build_repo()
+        stage('S0 build')
         # S1 translate
         if hasattr(mod, 'translate'):
             for p in mod.translate(ctx) or []:
                 ctx.broke('translate', p)
+        stage('S1 translate')
         # S2 prove + audit
         names = vlib.theorem_names(prop)
         obligations = len(names)
@@ -72,6 +78,7 @@ def main():
                 rc, out, err = vlib.run(['lake', 'env', 'leanchecker'] + mods, cwd=vlib.LEAN, timeout=3000)
                 ctx.cov['leanchecker'] = 'ok' if rc == 0 else 'FAILED'
                 if rc != 0: ctx.broke('leanchecker', (out + err)[-1000:])
+        stage('S2 prove+audit')
         # replay mode
         if replay:
             payload = json.load(open(replay))
@@ -82,6 +89,7 @@ def main():
             # S4 search when a tie or proof is broken and no concrete violation is known yet
             if ctx.broken and not ctx.violations and hasattr(mod, 'search'):
                 mod.search(ctx, ctx.broken)
+        stage('S3/S4 correspond+search')
     except Exception:
         ctx.broke('infrastructure', traceback.format_exc()[-3000:])
         sys.stderr.write(traceback.format_exc())
@@ -127,6 +135,7 @@ def main():
     cov.setdefault('theorems', sorted(axioms.keys()))
     cov.setdefault('samples', ctx.samples[:8] or ['(no sample recorded)'])
     cov.setdefault('evaluations', 1); cov.setdefault('distinct_nontrivial', 0)
+    cov['stage_wall_s'] = stages
     cov['known_findings_seen'] = sorted(s for (_, s) in seen_known)
     cov['broken'] = [b['name'] for b in ctx.broken]
     ev = {'property_id': prop, 'tier': tier, 'seed': ctx.seed, 'level': getattr(mod, 'LEVEL', 'proof'),
